@@ -131,7 +131,8 @@ Span(p) == IF IsCtl(p)
 
 (* inputs on which C09 makes a claim *)
 IsUnclaimedResp(p) == HdrOk(p) /\ IsCtl(p) /\ Len(p) >= 12 /\ Rq(p) = 0 /\ Cmd(p) \in RespLenUnclaimed
-Claimed(p) == ~TooShort(p) /\ ~IsUnclaimedResp(p)
+(* (C09 quantifies over byte strings up to the SMBus maximum length) *)
+Claimed(p) == ~TooShort(p) /\ ~IsUnclaimedResp(p) /\ Len(p) <= MaxTotal
 
 (* an error value (type t, error e, completion code c) names a condition    *)
 (* that holds of p                                                           *)
